@@ -293,7 +293,7 @@ func (e *c41Env) stepOnce(r *mon.Rand) bool {
 	}
 	rep := map[string]interface{}{"seed": mon.Seed(), "self": e.selfType, "step": e.step, "inputs": batch,
 		"previous_latest": map[string]interface{}{"round": prev.Round, "signer": prev.SharderID, "own": prev.IsOwn},
-		"latest": map[string]interface{}{"round": now.Round, "signer": now.SharderID, "sign": now.Sign, "own": now.IsOwn}}
+		"latest":          map[string]interface{}{"round": now.Round, "signer": now.SharderID, "sign": now.Sign, "own": now.IsOwn}}
 	if now.Round < prev.Round || now.Round < e.maxSeen {
 		violate(e.run, "C41:latest-round-decreased", fmt.Sprintf("self=%s: GetLatestLFBTicket answered round %d after having answered round %d (input: %s %s %s round %d)", e.selfType, now.Round, e.maxSeen, label.Kind, label.Signer, label.SigClass, label.Round), rep)
 	}
